@@ -65,7 +65,22 @@ def r2_stop_conditions(ctx):
     budget = any(("field:" + D + "DfsScheduler.max_iterations") in l for l in g)
     exhausted = any(("call:" + D + "DfsScheduler::has_more_choices") in l and ("field:" + IT) in l for l in g)
     ctx.ob("C09.R2", "stops-on-budget", budget, "one None exit is guarded by the iteration budget", loc=b.loc())
-    ctx.ob("C09.R2", "stops-when-exhausted", exhausted, "one None exit is guarded by `iterations > 0 && !has_more_choices(0)`", loc=b.loc())
+    # precisely: among the branches that control the exhausted exit there is one that tests `iterations` WITHOUT `max_iterations` (the
+    # budget test also mentions iterations, and it controls every later exit).  "Has an execution been started" must be asked of the
+    # counter, not of the recorded levels: an execution that is cut off before its first decision (step bound 0) records no level.
+    fd = FlowSlicer(b, control=False)
+    own_test = False
+    for s in nones:
+        if ("call:" + D + "DfsScheduler::has_more_choices") not in expand_closure_labels(prog, fs.guard_labels(s)):
+            continue
+        for sw in control_deps(b).get(s.bb, ()):
+            dl = fd.operand_labels(b.term(sw)["discr"], b.term_site(sw))
+            if ("field:" + IT) in dl and ("field:" + D + "DfsScheduler.max_iterations") not in dl:
+                own_test = True
+    ctx.ob("C09.R2", "stops-when-exhausted", exhausted and own_test,
+           "one None exit is guarded by `iterations > 0 && !has_more_choices(0)`" if (exhausted and own_test) else
+           "the exhausted-tree exit of new_execution is not conditioned on a test of `iterations` of its own: whether an execution has been started must not be "
+           "inferred from the recorded levels (an execution stopped before its first decision records none, and DFS would never stop)", loc=b.loc())
     inc = [s for s, st in b.assigns() if last_field(st["dst"]) == IT]
     rst = [s for s, st in b.assigns() if last_field(st["dst"]) == D + "DfsScheduler.steps" and st["rv"]["k"] == "use" and st["rv"]["ops"][0].get("ev") == 0]
     ok = len(inc) == 1 and bool(rst) and bool(somes) and all(b.site_dominates(inc[0], s) and b.site_dominates(rst[0], s) for s in somes)
